@@ -671,16 +671,25 @@ func formatTimezone(t time.Time, marker *variableMarker, prefixed bool) (string,
 	return tz, nil
 }
 
+// tzSign returns the sign of a UTC offset split into hours and
+// minutes. Both parts carry the sign of the offset, and the hours
+// are zero for offsets of less than an hour, so the sign cannot
+// be taken from the hours alone.
+func tzSign(h int, m int) string {
+	if h < 0 || m < 0 {
+		return "-"
+	}
+	return "+"
+}
+
 func formatTimezoneShort(h int, m int, layout string) (string, error) {
 
-	tz, err := formatInteger(h, layout)
+	tz, err := formatInteger(abs(h), layout)
 	if err != nil {
 		return "", err
 	}
 
-	if h >= 0 {
-		tz = "+" + tz
-	}
+	tz = tzSign(h, m) + tz
 
 	if m != 0 {
 		tz += fmt.Sprintf(":%02d", abs(m))
@@ -691,21 +700,17 @@ func formatTimezoneShort(h int, m int, layout string) (string, error) {
 
 func formatTimezoneLong(h int, m int, layout string) (string, error) {
 
-	tz, err := formatInteger(h*100+m, layout)
+	tz, err := formatInteger(abs(h)*100+abs(m), layout)
 	if err != nil {
 		return "", err
 	}
 
-	if h >= 0 {
-		tz = "+" + tz
-	}
-
-	return tz, nil
+	return tzSign(h, m) + tz, nil
 }
 
 func formatTimezoneSplit(h int, layoutH string, m int, layoutM string, separator string) (string, error) {
 
-	hh, err := formatInteger(h, layoutH)
+	hh, err := formatInteger(abs(h), layoutH)
 	if err != nil {
 		return "", err
 	}
@@ -715,13 +720,7 @@ func formatTimezoneSplit(h int, layoutH string, m int, layoutM string, separator
 		return "", err
 	}
 
-	tz := hh + separator + mm
-
-	if h >= 0 {
-		tz = "+" + tz
-	}
-
-	return tz, nil
+	return tzSign(h, m) + hh + separator + mm, nil
 }
 
 var calendars = []string{"AD"}
